@@ -216,6 +216,10 @@ func main() {
 				run.Inconclusive(fmt.Sprintf("batch %d (%s): child exited with %d", b.Index, b.Class, res.ExitCode))
 			default:
 				run.Count("batches_completed", 1)
+				// nothing to investigate: do not let the scratch directory grow
+				os.Remove(res.OutFile)
+				os.Remove(res.ErrFile)
+				os.RemoveAll(strings.TrimSuffix(res.OutFile, ".out") + ".d")
 			}
 		}(b)
 	}
@@ -257,7 +261,7 @@ func plan(run *vk.Run) []batchArgs {
 	var safe, random []job
 	n := 0
 	next := func() int { n++; return n }
-	rounds := run.Pick(1, 10)
+	rounds := run.Pick(1, 20)
 	for round := 0; round < rounds; round++ {
 		for _, k := range kinds {
 			for _, ps := range permSets() {
@@ -268,22 +272,22 @@ func plan(run *vk.Run) []batchArgs {
 			}
 		}
 	}
-	for i := 0; i < run.Pick(24, 1000); i++ {
+	for i := 0; i < run.Pick(24, 2000); i++ {
 		safe = append(safe, job{T: "deleg", I: next()})
 	}
-	for i := 0; i < run.Pick(16, 600); i++ {
+	for i := 0; i < run.Pick(16, 1000); i++ {
 		safe = append(safe, job{T: "xgroup", I: next()})
 	}
-	for i := 0; i < run.Pick(30, 1500); i++ {
+	for i := 0; i < run.Pick(30, 3000); i++ {
 		safe = append(safe, job{T: "revoke", I: next()})
 	}
-	for i := 0; i < run.Pick(24, 1500); i++ {
+	for i := 0; i < run.Pick(24, 3000); i++ {
 		safe = append(safe, job{T: "race", I: next()})
 	}
-	for i := 0; i < run.Pick(16, 600); i++ {
+	for i := 0; i < run.Pick(16, 1200); i++ {
 		safe = append(safe, job{T: "whip", I: next()})
 	}
-	for i := 0; i < run.Pick(400, 30000); i++ {
+	for i := 0; i < run.Pick(400, 70000); i++ {
 		random = append(random, job{T: "random", I: next(), Len: 15})
 	}
 
